@@ -108,7 +108,7 @@ def run(ctx, factor):
                 "(iii) real `objdump -d -M att` output for random code bytes: model vs implementation and an independent "
                 "line classifier as oracle; (iv) the listings under /repo/tests/assembly; non-trivial = both sides "
                 "produced a stream")
-    n = ctx.budget(120, 12000) * factor
+    n = ctx.budget(300, 12000) * factor
     for _ in range(n):
         lines = gen_lines.listing(g, g.int(1, 12))
         r = ctx.driver.call({"op": "linespec", "lines": lines})["ok"]
